@@ -15,6 +15,8 @@ the unhandled-input handler does).  Three pieces:
 Session steps (JSON-able):
     ["keys", [k, ...]]     one batch of input events; k is a str or [event, button, col, row]
     ["resize", cols, rows] the terminal is resized (arrives as a batch ["window resize"])
+    ["mixed", [k, ...], cols, rows]  the terminal is resized while input is pending: ONE batch that holds the
+                           marker "window resize" (at the position given in the list) among keys / mouse events
     ["pipe", "data"]       data is written to the write end returned by MainLoop.watch_pipe
 
 Test application (fixture, same text in bounded/C12.py):
@@ -70,8 +72,8 @@ def expected_events(case):
 
     for step in case["session"]:
         pending_alarms = 0
-        if step[0] in ("keys", "resize"):
-            batch = list(step[1]) if step[0] == "keys" else ["window resize"]
+        if step[0] in ("keys", "resize", "mixed"):
+            batch = list(step[1]) if step[0] in ("keys", "mixed") else ["window resize"]
             ev.append(["filter", batch])
             if hit("filter"):
                 return ev, "injected"
@@ -127,6 +129,15 @@ def expected_events(case):
             if hit("alarm"):
                 return ev, "injected"
     return ev, "script-exhausted"
+
+
+def terminal_size_after(step, size):
+    """The terminal's size once *step* has been fed (steps that do not resize leave it alone)."""
+    if step[0] == "resize":
+        return (step[1], step[2])
+    if step[0] == "mixed":
+        return (step[2], step[3])
+    return size
 
 
 def new_state():
